@@ -3287,7 +3287,7 @@ class LazyStackedTensorDict(TensorDictBase):
     def _view(self, *args, raise_if_not_view: bool = True, **kwargs) -> T:
         shape = _get_shape_from_args(*args, **kwargs)
         if any(dim < 0 for dim in shape):
-            shape = _infer_size_impl(shape, self.numel())
+            shape = _infer_size_impl(shape, self.batch_size.numel())
 
         # Then we just need to reorganize the lazy stack
         shape = torch.Size(shape)
